@@ -364,6 +364,49 @@ def t_text(shard, nshards, seed, ev, known, n=500):
     return core.hyp_drive(_text_case(), check_text_pairs, n, seed, ev, known, check_name="text")
 
 
+def check_text_long(case, ev):
+    """One physical line of thousands of IPv4 tokens (far beyond 64 KiB) through anonymize_io: the
+    map token -> output token must be one-to-one at every prefix depth.  case: {cfg, n, start, stride}"""
+    import ipaddress
+
+    cfg, n = case["cfg"], case["n"]
+    xs = []
+    for i in range(n):
+        x = (case["start"] + i * (case["stride"] | 1)) & G.M32
+        if not G.is_mask(x):
+            xs.append(x)
+    line = " ".join(G.v4_canon(x) for x in xs)
+    fa, exc = guarded(G.file_anonymizer, cfg)
+    if exc is not None:
+        return core.exc_finding(exc, case, "ctor/")
+    out, exc = guarded(core.run_io, fa, line + "\n")
+    if exc is not None:
+        return core.exc_finding(exc, case, "text/")
+    parts = out.split()
+    ev.bulk(len(xs), len(xs), sample={k: case[k] for k in ("cfg", "n")}, classes={"long-line-tokens": len(xs)})
+    if len(parts) != len(xs) or out.count("\n") != 1:
+        return Finding("text/long-line-structure-changed", "%d tokens on one line of %d characters became %d tokens on %d lines" % (len(xs), len(line), len(parts), out.count("\n")), case)
+    try:
+        ys = [int(ipaddress.IPv4Address(t)) for t in parts]
+    except ValueError as e:
+        return Finding("text/long-line-output-token-not-an-address", str(e), case)
+    for d in range(1, 33):
+        fwd, back = {}, {}
+        for x, y in zip(xs, ys):
+            p_, q_ = x >> (32 - d), y >> (32 - d)
+            if fwd.setdefault(p_, q_) != q_ or back.setdefault(q_, p_) != p_:
+                return Finding("text/long-line-cpl-not-preserved", "cfg=%r: in a line of %d tokens prefixes of length %d are not mapped one-to-one (token %s -> %s)" % (cfg, len(xs), d, G.v4_canon(x), G.v4_canon(y)), case)
+    return None
+
+
+REPLAY["text_long"] = check_text_long
+
+
+def t_text_long(shard, nshards, seed, ev, known, n=6000):
+    cases = [{"cfg": {"salt": "tl%d" % k, "B4": [8, 0][k % 2], "B6": 8, "prefixes": None, "networks": None, "mode": "default"}, "n": n, "start": core.derive("tl", seed, k) & G.M32, "stride": (core.derive("tls", seed, k) & 0xFFFFFF) | 0x10001} for k in range(nshards) if k % nshards == shard]
+    return core.enum_drive(cases, check_text_long, ev, known, "text_long")
+
+
 def t_pairs(shard, nshards, seed, ev, known, n=1000):
     return core.hyp_drive(_group_case(), check_group, n, seed, ev, known, check_name="pairs")
 
@@ -431,6 +474,7 @@ def plan(tier):
     return [
         Task("pairs", t_pairs, shards=4 if q else 16, n=1500 if q else 40000),
         Task("text", t_text, shards=3 if q else 16, n=600 if q else 20000),
+        Task("text_long", t_text_long, shards=2 if q else 6, n=6000 if q else 20000),
         Task("bulk", t_bulk, shards=4 if q else 16, n=2 if q else 10, size=7000 if q else 14000),
         Task("bulk_long", t_bulk, shards=2 if q else 8, n=1 if q else 4, size=30000 if q else 60000),
         Task("exh_real", t_exh_real, shards=6 if q else 16, w=10 if q else 16, ncfg=99),
